@@ -156,17 +156,21 @@ MechCol(rec, ls, tb, c, o) ==
                  LET p == Justify(Format(tb[c].t, rs, v, o)[1], rec.text.ws[c], RightAligned(tb[c].t))
                  IN x.lp = p.lp /\ x.n = p.n /\ x.rp = p.rp /\ x.dot = (IF p.dot < 0 THEN -1 ELSE x.off + p.dot)
 
-(* CSV: a header, one record per (expanded) row, one field per column, the field = the text cell, padding aside *)
-CsvShape(rec, ls) ==
-    LET nrows == Cardinality({k \in 1..Len(ls) : ls[k].kind = "row"})
-    IN /\ rec.csv.ok = 1 /\ Len(rec.csv.hdr) = Len(rec.tab) /\ Len(rec.csv.recs) = nrows
-       /\ \A q \in 1..Len(rec.csv.nf) : rec.csv.nf[q] = Len(rec.tab)
-CsvHeaderCol(rec, c) == rec.csv.hdr[c] = rec.tab[c].hx
+(* CSV: a header, one record per (expanded) row, one field per column, the field = the text cell, padding aside.
+   rec.csv is a SEQUENCE of observations of the same table under the same option record: "api" = render_csv called
+   with the two options it documents, "app" = the per-format entry point beanquery.render.csv.render handed EVERY
+   option of the record (boxed, unicode, spaced, expand, narrow, nullvalue, listsep and the application's other
+   settings), "shell" = the output of a BQLShell after .set <every option> and .set format csv.  Each is judged
+   against the specification's CsvWant, which knows nothing of the text-only options. *)
+CsvShape(cv, rec, tb, o) ==
+    /\ cv.ok = 1 /\ Len(cv.hdr) = Len(rec.tab) /\ Len(cv.recs) = Len(CsvWant(tb, o))
+    /\ \A q \in 1..Len(cv.nf) : cv.nf[q] = Len(rec.tab)
+CsvHeaderCol(cv, rec, c) == cv.hdr[c] = rec.tab[c].hx
 RECURSIVE RowIdx(_, _)
 RowIdx(ls, k) == IF k = 0 THEN 0 ELSE (IF ls[k].kind = "row" THEN 1 ELSE 0) + RowIdx(ls, k - 1)
-CsvFieldCol(rec, ls, c) ==
+CsvFieldCol(cv, rec, ls, c) ==
     \A k \in 1..Len(ls) : ls[k].kind = "row" =>
-        LET f == rec.csv.recs[RowIdx(ls, k)][c] x == rec.text.lines[k].cells[c]
+        LET f == cv.recs[RowIdx(ls, k)][c] x == rec.text.lines[k].cells[c]
         IN \/ rec.tab[c].vals[ls[k].r].k = "ood"
            \/ IF rec.tab[c].vals[ls[k].r].k = "null" THEN f.tx = x.tx ELSE f.items = x.items
 
@@ -174,31 +178,40 @@ CsvFieldCol(rec, ls, c) ==
 Judge(rec) ==
     LET o == Opt(rec) tb == TB(rec) want == WantSkeleton(tb, o)
         cols == 1..Len(rec.tab)
-    IN IF rec.text.ok = 0 \/ Len(rec.text.ws) # Len(rec.tab) THEN {<<"parse", 0>>}
-       ELSE IF ~SkeletonFits(rec, want) THEN {<<"skeleton", 0>>}
-       ELSE LET ls == LS(rec, want) ws == rec.text.ws
-                tablevel ==
-                    (IF RectOK(ls, ws, o) THEN {} ELSE {<<"rect", 0>>})
-                    \cup (IF StyleOK(ls, o) THEN {} ELSE {<<"style", 0>>})
-                    \cup (IF ShapeOK(ls, ws) /\ RulesOK(ls, ws) THEN {} ELSE {<<"rules", 0>>})
-                percol(c) ==
-                    (IF OffsetsCol(ls, ws, o, c) THEN {} ELSE {<<"offsets", c>>})
-                    \cup (IF HeaderCol(ls, tb, ws, o, c) THEN {} ELSE {<<"header", c>>})
-                    \cup (IF HeaderTextCol(rec, ls, c) THEN {} ELSE {<<"headertext", c>>})
-                    \cup (IF WidthFloorCol(tb, ws, o, c) THEN {} ELSE {<<"floor", c>>})
-                    \cup (IF WidthCol(rec, tb, c, o) THEN {} ELSE {<<"width", c>>})
-                    \cup (IF ShowsCol(ls, tb, o, c) THEN {} ELSE {<<"shows", c>>})
-                    \cup (IF NullCol(rec, ls, c) THEN {} ELSE {<<"null", c>>})
-                    \cup (IF JustifyCol(ls, tb, c) THEN {} ELSE {<<"justify", c>>})
-                    \cup (IF DotsCol(ls, tb, c) /\ DotsShownCol(ls, tb, c) THEN {} ELSE {<<"dots", c>>})
-                    \cup (IF AmtAlignCol(rec, ls, c) THEN {} ELSE {<<"amtalign", c>>})
-                    \cup (IF MechCol(rec, ls, tb, c, o) THEN {} ELSE {<<"mech", c>>})
-                    \cup (IF ReadbackCol(rec, ls, c) THEN {} ELSE {<<"readback", c>>})
-                csvlevel ==
-                    IF ~CsvShape(rec, ls) THEN {<<"csvshape", 0>>}
-                    ELSE UNION {(IF CsvHeaderCol(rec, c) THEN {} ELSE {<<"csvheader", c>>})
-                                \cup (IF CsvFieldCol(rec, ls, c) THEN {} ELSE {<<"csvfield", c>>}) : c \in cols}
-            IN tablevel \cup UNION {percol(c) : c \in cols} \cup csvlevel
+        textok == rec.text.ok = 1 /\ Len(rec.text.ws) = Len(rec.tab)
+        skelok == textok /\ SkeletonFits(rec, want)
+        ls == LS(rec, want)
+        ws == rec.text.ws
+        tablevel ==
+            (IF RectOK(ls, ws, o) THEN {} ELSE {<<"rect", 0>>})
+            \cup (IF StyleOK(ls, o) THEN {} ELSE {<<"style", 0>>})
+            \cup (IF ShapeOK(ls, ws) /\ RulesOK(ls, ws) THEN {} ELSE {<<"rules", 0>>})
+        percol(c) ==
+            (IF OffsetsCol(ls, ws, o, c) THEN {} ELSE {<<"offsets", c>>})
+            \cup (IF HeaderCol(ls, tb, ws, o, c) THEN {} ELSE {<<"header", c>>})
+            \cup (IF HeaderTextCol(rec, ls, c) THEN {} ELSE {<<"headertext", c>>})
+            \cup (IF WidthFloorCol(tb, ws, o, c) THEN {} ELSE {<<"floor", c>>})
+            \cup (IF WidthCol(rec, tb, c, o) THEN {} ELSE {<<"width", c>>})
+            \cup (IF ShowsCol(ls, tb, o, c) THEN {} ELSE {<<"shows", c>>})
+            \cup (IF NullCol(rec, ls, c) THEN {} ELSE {<<"null", c>>})
+            \cup (IF JustifyCol(ls, tb, c) THEN {} ELSE {<<"justify", c>>})
+            \cup (IF DotsCol(ls, tb, c) /\ DotsShownCol(ls, tb, c) THEN {} ELSE {<<"dots", c>>})
+            \cup (IF AmtAlignCol(rec, ls, c) THEN {} ELSE {<<"amtalign", c>>})
+            \cup (IF MechCol(rec, ls, tb, c, o) THEN {} ELSE {<<"mech", c>>})
+            \cup (IF ReadbackCol(rec, ls, c) THEN {} ELSE {<<"readback", c>>})
+        textlevel ==
+            IF ~textok THEN {<<"parse", 0>>}
+            ELSE IF ~skelok THEN {<<"skeleton", 0>>}
+            ELSE tablevel \cup UNION {percol(c) : c \in cols}
+        \* the shape of the CSV is judged whatever became of the text; field = text cell needs the text lines
+        csvobs(q) ==
+            LET cv == rec.csv[q]
+                sfx == IF cv.call = "api" THEN "" ELSE "@" \o cv.call
+            IN IF ~CsvShape(cv, rec, tb, o) THEN {<<"csvshape" \o sfx, 0>>}
+               ELSE UNION {(IF CsvHeaderCol(cv, rec, c) THEN {} ELSE {<<"csvheader" \o sfx, c>>})
+                           \cup (IF ~skelok \/ CsvFieldCol(cv, rec, ls, c) THEN {} ELSE {<<"csvfield" \o sfx, c>>})
+                           : c \in cols}
+    IN textlevel \cup UNION {csvobs(q) : q \in 1..Len(rec.csv)}
 
 \* the mechanism's variables are not used here (Judge folds the operators itself)
 TInit == l = 1 /\ nbad = 0 /\ tab = <<>> /\ opt = 0 /\ phase = "trace" /\ r = 0 /\ rst = <<>> /\ widths = <<>> /\ lines = <<>>
